@@ -1,0 +1,38 @@
+//go:build verif
+
+// Verification contracts (property C21, addition; comment-only, read by /verif/govc).
+// The operator writes the merged snapshot only inside a transaction that fails if the snapshot key changed since the
+// operator read it: a broker's acknowledged topic creation / partition increase that lands between the operator's read
+// and its write makes the transaction fail (and the publish retry re-reads and re-merges) instead of being overwritten.
+
+package operator
+
+//@ func PublishMetadataSnapshot
+//@   never_calls [C21.publish_never_writes_unconditionally] go.etcd.io/etcd/client/v3.KV.Put, go.etcd.io/etcd/client/v3.KV.Delete, go.etcd.io/etcd/client/v3.KV.Do
+//@   merge_branches
+//@   at mergeSnapshots#1 havoc
+//@   ghost gKeyV string = ""
+//@   ghost gKeyM string = ""
+//@   ghost gCmpVer clientv3.Cmp = nil
+//@   ghost gCmpMod clientv3.Cmp = nil
+//@   ghost gGuard clientv3.Cmp = nil
+//@   ghost gTxn clientv3.Txn = nil
+//@   ghost gGuarded bool = false
+//@   ghost gResp *clientv3.GetResponse = nil
+//@   at Get#1 before set gKeyV = arg1
+//@   at Get#1 after set gResp = ret0
+//@   at Get#1 after set gGuarded = false
+//@   at Version#1 before assert [C21.publish_guard_on_the_snapshot_key_when_absent] arg0 == gKeyV
+//@   at Version#1 after set gCmpVer = ret0
+//@   at Compare#1 before assert [C21.publish_guard_key_still_absent] arg0 == gCmpVer && arg1 == "=" && boxed(arg2, "int", 0)
+//@   at Compare#1 after set gGuard = ret0
+//@   at ModRevision#1 before assert [C21.publish_guard_on_the_snapshot_key_when_present] arg0 == gKeyV
+//@   at ModRevision#1 after set gCmpMod = ret0
+//@   at Compare#2 before assert [C21.publish_guard_is_the_revision_that_was_read] arg0 == gCmpMod && arg1 == "=" && gResp != nil && len(gResp.Kvs) > 0 && boxed(arg2, "int64", gResp.Kvs[0].ModRevision)
+//@   at Compare#2 after set gGuard = ret0
+//@   at If#1 before assert [C21.publish_txn_if_is_the_guard] len(arg0) == 1 && arg0[0] == gGuard
+//@   at If#1 after set gGuarded = true
+//@   at If#2 before assert [C21.publish_txn_if_is_the_guard] len(arg0) == 1 && arg0[0] == gGuard
+//@   at If#2 after set gGuarded = true
+//@   at OpPut#1 before assert [C21.publish_puts_the_snapshot_key] arg0 == gKeyV
+//@   at Commit#1 before assert [C21.publish_commits_only_a_guarded_txn] gGuarded
